@@ -72,7 +72,9 @@ func init() {
 		Trusted: trust("A-PS", "A-HOOK")})
 	add(&propSpec{ID: "C06", Level: "proof", Funcs: append([]string{"bexpr.evaluateCollectionExpression", "bexpr.evaluateCollectionExpression$1", "bexpr.getValue"}, optFuncs...),
 		Trusted: trust("A-PS", "A-SORT", "A-STACK")})
-	add(&propSpec{ID: "C14", Level: "proof", Funcs: []string{"bexpr.evaluateCollectionExpression", "bexpr.evaluateCollectionExpression$1"},
+	// determinism is a consequence of the functional posts (the result is a spec function of the
+	// arguments, with the key enumeration unconstrained): every function of the chain counts
+	add(&propSpec{ID: "C14", Level: "proof", Funcs: append(append([]string(nil), evalChain...), "bexpr.Filter.Execute"),
 		Trusted: trust("A-SORT", "A-PS")})
 	add(&propSpec{ID: "C18", Level: "proof", Funcs: append([]string{"bexpr.Evaluator.Evaluate", "bexpr.evaluate", "bexpr.evaluateMatchExpression", "bexpr.evaluateCollectionExpression", "bexpr.evaluateCollectionExpression$1", "bexpr.getValue", "bexpr.evaluateNotPresent", "bexpr.Filter.Execute", "bexpr.CreateEvaluator", "bexpr.CreateFilter", "grammar.MaxExpressions"}, optFuncs...),
 		Trusted: trust("A-PS", "A-HOOK")})
